@@ -105,6 +105,8 @@ class AofCheck(PropertyCheck):
                 if not peek().startswith("L "):
                     sp.bad = "expected the log bytes, got %r" % peek(); break
                 i += 2
+            elif k == "LT":
+                pass
             elif k == "WW":
                 f = line.split()
                 after_open = False
